@@ -36,12 +36,13 @@ def explore(world, contract, max_paths=4000):
         ctx = PathCtx(prefix)
         interp = Interp(ctx, world)
         interp.verifying = fi
+        interp.verifying_contract = contract
         for ordn, spec in contract.loops.items():
             interp.loop_specs[(fi.fq, ordn)] = spec
         for fq2, c2 in world.contracts.items():
             if c2 is not contract:
                 for ordn, spec in c2.loops.items():
-                    interp.loop_specs.setdefault((fq2, ordn), spec)
+                    interp.loop_specs.setdefault((c2.fq, ordn), spec)
         outcome, detail = run_path(interp, fi, contract)
         work.extend(ctx.pending)
         for o in ctx.obligations:
@@ -127,6 +128,9 @@ def run_path(interp: Interp, fi, contract):
     if contract.emits is not None:
         emits_obligations(interp, fq, contract, o, n, result, ctx.trace[n_pre_events:])
     frame_obligations(interp, fq, old, roots, contract.modifies_list(o), contract.props)
+    for label, when, mods in contract.cond_frames:
+        frame_obligations(interp, fq, old, roots, (mods(o) if callable(mods) else mods), contract.props,
+                          tag=label, hyp=when(o))
     effect_obligations(interp, fq, contract)
     return "return", repr(result)[:80]
 
@@ -135,12 +139,17 @@ def frame_obligations(interp, fq, old, roots, modifies, props, tag="frame", hyp=
     ctx = interp.ctx
     allowed = set()
     for loc in modifies:
-        try:
-            obj, fld = interp.resolve_loc(roots, loc)
-        except (KeyError, CheckerError):
-            continue
-        allowed.add((obj.oid, fld))
-    old_objs = {}
+        # a location names a field of an object of the PRE-state (fresh objects may be written freely);
+        # the post-state resolution is added too so that `self.x.y` also covers a re-pointed x
+        for graph in (old, roots):
+            try:
+                obj, fld = interp.resolve_loc(graph, loc)
+            except (KeyError, CheckerError, AttributeError):
+                continue
+            if isinstance(obj, SOpt):
+                obj = obj.val
+            if isinstance(obj, SObj):
+                allowed.add((obj.oid, fld))
     for oid, fld, what in heap_diff(old, roots):
         if (oid, fld) in allowed:
             continue
@@ -452,7 +461,7 @@ def model_to_dict(m):
     return out
 
 
-def verify_function(world, contract, use_cvc5=True, known=()):
+def verify_function(world, contract, use_cvc5=True, known=(), only_prop=None):
     """Full per-function run. Returns a JSON-able dict."""
     import re
     t0 = time.time()
@@ -465,6 +474,9 @@ def verify_function(world, contract, use_cvc5=True, known=()):
     results = {}
     backends = {}
     solver_time = 0.0
+    n_all = len(obligations)
+    if only_prop is not None:
+        obligations = [ob for ob in obligations if only_prop in ob.props]
     for ob in obligations:
         verdict, backend, dt, model = discharge(ob, use_cvc5=use_cvc5)
         solver_time += dt
@@ -502,7 +514,7 @@ def verify_function(world, contract, use_cvc5=True, known=()):
                     break
             r["failed"].append(rec)
     return {
-        "function": contract.fq,
+        "function": contract.key,
         "file": os.path.relpath(fi.file, "/"),
         "line": fi.node.lineno,
         "paths": len(paths),
@@ -511,6 +523,7 @@ def verify_function(world, contract, use_cvc5=True, known=()):
         "path_details": [(p.outcome, p.detail) for p in paths][:40],
         "obligations": list(results.values()),
         "n_obligation_instances": len(obligations),
+        "n_obligation_instances_all_properties": n_all,
         "solver_time_s": round(solver_time, 3),
         "wall_s": round(time.time() - t0, 3),
         "backends": {k: {"count": v[0], "time_s": round(v[1], 3)} for k, v in backends.items()},
